@@ -38,7 +38,13 @@ class ListProxy(list, ContainerValueMixin):
         if not self.list_field.field:
             raise TypeError("ListProxy requires a parent ListField.field attribute")
 
-        if isinstance(iterable, ListProxy) and iterable.item_field is list_field.field:
+        if (
+            isinstance(iterable, ListProxy)
+            and iterable.item_field is list_field.field
+            and iterable.cfg is cfg
+        ):
+            # items of another configuration's list are validated again: nested lists, dicts and
+            # configurations must not be shared between two configurations
             super().__init__(iterable)
         else:
             super().__init__(
@@ -56,7 +62,11 @@ class ListProxy(list, ContainerValueMixin):
         super().append(self._validate(item))
 
     def extend(self, iterable: Iterable) -> None:
-        if isinstance(iterable, ListProxy) and iterable.item_field is self.item_field:
+        if (
+            isinstance(iterable, ListProxy)
+            and iterable.item_field is self.item_field
+            and iterable.cfg is self.cfg
+        ):
             super().extend(iterable)
         else:
             super().extend(self._validate(item) for item in iterable)
